@@ -999,3 +999,111 @@ func runMustFlow(m *model.Model, s *ob.Set) {
 		s.Check(ok, R, "(*Decimal).uquo/remainder->sticky", m.Pos(fn.Pos()), "a non-zero remainder sets the sticky bit", "the remainder of the long division does not reach the sticky argument of setExpAndRound: inexact quotients would be rounded and reported as if exact")
 	}
 }
+
+// ---------------------------------------------------------------- MODE
+
+func init() {
+	Register(&Rule{Name: "MODE", Floor: 3, Run: runModeOrder,
+		Doc: "the rounding mode of an object is not written after a call that may round that object (the rounding would have run under the previous mode): mode first, then SetPrec/round. Functions that round under a temporary mode on purpose are tabled with their reason"})
+}
+
+func runModeOrder(m *model.Model, s *ob.Set) {
+	const R = "MODE"
+	reach := reachesRound(m)
+	tabled := map[string]string{}
+	setMode := m.Lookup("(*Decimal).SetMode")
+	n := 0
+	for _, fn := range m.Funcs {
+		if len(fn.Blocks) == 0 {
+			continue
+		}
+		live := m.Live(fn)
+		for k, p := range fn.Params {
+			if !m.IsDecPtr(p.Type()) {
+				continue
+			}
+			nb := len(fn.Blocks)
+			in := make([]int, nb) // 0 unset, 1 no rounding yet, 2 may have rounded
+			in[0] = 1
+			work := []int{0}
+			var hits []string
+			nwrites := 0
+			rounds := func(ins ssa.Instruction) bool {
+				cal, c := model.Callee(ins)
+				if cal == nil || reach[cal] == nil {
+					return false
+				}
+				for ai, a := range c.Args {
+					if m.IsDecPtr(a.Type()) && reach[cal][ai] && m.RefOf(a).MayBeParam(k) {
+						return true
+					}
+				}
+				return false
+			}
+			writesMode := func(ins ssa.Instruction) bool {
+				if sto, ok := ins.(*ssa.Store); ok {
+					if fa, ok := m.DecField(sto.Addr); ok && fa.Field == m.F.Mode && m.RefOf(fa.X).MayBeParam(k) {
+						return true
+					}
+				}
+				if cal, c := model.Callee(ins); cal != nil && cal == setMode && len(c.Args) > 0 && m.RefOf(c.Args[0]).MayBeParam(k) {
+					return true
+				}
+				return false
+			}
+			step := func(b *ssa.BasicBlock, st int, rec bool) int {
+				for _, ins := range b.Instrs {
+					if writesMode(ins) {
+						if rec {
+							nwrites++
+							if st == 2 {
+								hits = append(hits, m.InstrPos(ins))
+							}
+						}
+						continue
+					}
+					if rounds(ins) {
+						st = 2
+					}
+				}
+				return st
+			}
+			for len(work) > 0 {
+				bi := work[len(work)-1]
+				work = work[:len(work)-1]
+				if !live[bi] {
+					continue
+				}
+				out := step(fn.Blocks[bi], in[bi], false)
+				for _, ed := range model.LiveSuccs(fn.Blocks[bi]) {
+					if out > in[ed.To.Index] {
+						in[ed.To.Index] = out
+						work = append(work, ed.To.Index)
+					}
+				}
+			}
+			for bi, b := range fn.Blocks {
+				if in[bi] != 0 && live[bi] {
+					step(b, in[bi], true)
+				}
+			}
+			if nwrites == 0 {
+				continue
+			}
+			n++
+			c := fmt.Sprintf("%s/%s.mode", m.FuncName(fn), p.Name())
+			if why, ok := tabled[m.FuncName(fn)]; ok {
+				s.Ok(R, c, m.Pos(fn.Pos()), "tabled: "+why)
+				continue
+			}
+			if len(hits) == 0 {
+				s.Ok(R, c, m.Pos(fn.Pos()), fmt.Sprintf("%d mode write(s), none after a call that may round the object", nwrites))
+			} else {
+				s.Bad(R, c, m.Pos(fn.Pos()), hits[0]+": the rounding mode is written after the object may already have been rounded: that rounding ran under the previous mode", hits[1:]...)
+			}
+		}
+	}
+	if n < 3 {
+		model.Fatal("MODE: only %d functions writing a rounding mode found", n)
+	}
+}
